@@ -1,8 +1,24 @@
 import SLModel.Drv.Util
+import SLModel.Drv.AggsJson
+import SLModel.Core.Aggs
 open Lean
 namespace SL.Drv.C12
+open SL.Drv SL.Drv.AggsJson SL.Aggs
 
-/-- stub: no model operations for C12 yet -/
-def handle (_req : Json) : Except String Json := .error "C12: not implemented"
+/-- `{"op":"run","fields":{…},"segs":[[doc…]…],"agg":{…}}` →
+`{"resp": <SL.Aggs.run agg segs>, "spec": <SL.Aggs.Spec.agg agg segs.flatten>}` -/
+def handle (req : Json) : Except String Json := do
+  let op ← getStr req "op"
+  match op with
+  | "run" =>
+    let fields := (getOpt req "fields").getD (Json.mkObj [])
+    let segs ← parseSegs (← req.getObjVal? "segs")
+    let agg ← parseAgg fields (← req.getObjVal? "agg")
+    let resp := match run agg segs with
+      | some n => nodeToJson n
+      | none => Json.null
+    let spec := nodeToJson (Spec.agg agg segs.flatten)
+    return Json.mkObj [("resp", resp), ("spec", spec)]
+  | _ => throw s!"C12: unknown op {op}"
 
 end SL.Drv.C12
